@@ -31,7 +31,7 @@ ASSUMPTIONS = [
     'finding), 0^0, 0^negative, negative^fraction, overflow',
 ]
 FLOORS = {'evaluate_outcomes': 2000, 'pairs_seen': 144,
-          'reassigned_evaluations': 300, 'chained_evaluations': 300, 'two_sheet_evaluations': 300,
+          'reassigned_evaluations': 300, 'chained_evaluations': 300, 'far_reference_cases': 60, 'two_sheet_evaluations': 300,
           'decimal_residue_cases': 100, 'postfix_percent_cases': 30, 'big_power_cases': 12, 'error_operand_cases': 300,
           'rendering_groups': 500}
 ANCHOR_FUNCS = {
@@ -306,6 +306,9 @@ class Runner:
             for col, ast in ch:
                 cells[f'Sheet1!{ref.col_letters(col)}1'] = \
                     '=' + ref.render(ast, 'minimal')
+        cells['Sheet1!ZY1'] = '=' + '+'.join(CELLS) + '+' + '+'.join(
+            f'{ref.col_letters(ch[-1][0])}1' for ch in chains) + \
+            '+NOSUCHFUNCTION(1)'
         try:
             model = subject.compile_dict(cells)
             ev = Evaluator(model)
@@ -315,6 +318,8 @@ class Runner:
                   lambda a, v: model.set_cell_value(a, v)]
         for step, asg in enumerate(steps):
             if step:
+                # a failing evaluation that has read inputs and chain cells
+                subject.outcome_of(lambda: ev.evaluate('Sheet1!ZY1'))
                 for c, v in zip(CELLS, asg):
                     routes[step % 2](f'Sheet1!{c}', v)
             wb = ref.Workbook({('Sheet1', i + 1, 1): v
@@ -732,6 +737,44 @@ def run(ctx):
         R.add(ast, assignments(1)[0], 'tree',
               [rng.choice(styles), ('minimal', False)])
     R.flush()
+    # ---- the operands far out on the sheet: columns of one, two and three
+    # letters (Z, AA, ZZ, AAA, XFD), rows of one to seven digits, each reference
+    # relative, absolute or mixed ($) ------------------------------------------
+    if sh in (4, 5, 6) or thorough:
+        spots = [(26, 1), (27, 9), (52, 10), (702, 99), (703, 1), (731, 100),
+                 (1000, 1000), (16384, 7), (2, 65536), (705, 1048576),
+                 (16384, 1048576), (53, 99999)]
+        for _ in range(400 if thorough else 40):
+            picks = rng.sample(spots, 4)
+            vals = [rng.choice(POOL) for _ in picks]
+            cells_ = {('Sheet1', c, r): v for (c, r), v in zip(picks, vals)}
+            refs_ = [('ref', None, c, r, rng.random() < 0.6,
+                      rng.random() < 0.6) for c, r in picks]
+            o1, o2, o3 = (rng.choice(OPS) for _ in range(3))
+            toks = [refs_[0], o1, refs_[1], o2, refs_[2], o3, refs_[3]]
+            if rng.random() < 0.5:
+                toks.insert(rng.choice([0, 2, 4]), '-u')
+            ast = climb(toks)
+            wb = ref.Workbook(cells_)
+            expect = ref_value(wb, ast)
+            if expect[0] == 'undecided':
+                continue
+            text = '=' + ref.render(ast, 'minimal')
+            inputs = {f'{ref.col_letters(c)}{r}': v
+                      for (_s, c, r), v in cells_.items()}
+            got = subject.eval_one(text, inputs)
+            ctx.event('far_reference_cases')
+            ctx.event('evaluate_outcomes')
+            ctx.case(('far', o1, o2, o3, tuple(
+                (len(ref.col_letters(r_[2])), r_[4], r_[5]) for r_ in refs_)))
+            if got[0] == 'value' and values_equal(got[1], expect[1]):
+                continue
+            ctx.fail(f'{text} with {inputs}: observed {got}, reference '
+                     f'{expect[1]}', {'formula': text, 'cells': inputs,
+                                      'observed': got,
+                                      'reference': expect[1]},
+                     kf=R.attribute(wb, ast, got), monitor='reference-value',
+                     group='far-references')
     ctx.event('pairs_seen', 0)
     ctx.data['pairs'] = sorted('%s %s' % p for p in R.pairs_seen)
     ops_applied = sum(v for k, v in rec.calls.items()
